@@ -108,7 +108,8 @@ def security_validate(ctx, g, access_out):
                    'function': 'security.sanctioned', 'clients': clients, 'hook': h,
                    'endpoint': e, 'cert': cert}
             truth = v[0] != 'exc' and v != ['bool', False] and v != ['other', 'None'] and v != ['str', '']
-            if (h in DENYING or (h == 'raise-for-anon' and not cert)) and (truth or v[0] == 'exc'):
+            if (h in DENYING or (h == 'raise-for-anon' and not cert)) and truth:
+                # (an exception escaping sanctioned() is not counted: __render would not reach the handler)
                 ctx.violation('hook-failure-open', {'hook': h},
                               'security.sanctioned(%r, %s) with the hook %s (denies/raises) answered %s'
                               % (e, 'cert' if cert else None, h, v), rep)
@@ -200,3 +201,33 @@ def security_validate(ctx, g, access_out):
                                      + len(impl['identity']), 'evaluated': n,
                                      'translator_ok': g['ok'], 'generated_vs_python_mismatch': bad})
     return not (failed or bad)
+
+
+# =============================================================================
+# fe._static  (tools/translate/static2coq.py -> Gen/StaticGen.v, Proofs/StaticGenEq.v)
+# =============================================================================
+def static_generate(ctx):
+    ok, msg = ctx.generate('static2coq.py', 'Gen/StaticGen.v')
+    ctx.trust('translator tools/translate/static2coq.py (continuation-style walker for the loop of '
+              'fe._static: continue / break / raising OS calls; the lexical part of pathlib is '
+              'Model/Static.v\'s; the statement `if found:` is pinned by its text; validated on every run '
+              'against the real _static on the recorded OS answers of every request of the static half; '
+              'the generated function is PROVED equal to Model/Static.v for all oracles, '
+              'coq/Proofs/StaticGenEq.v)')
+    fps = ctx.cov.setdefault('translated_fingerprints', {})
+    fps.update(core.fingerprint('Python/dawgie/fe/__init__.py', ['_static']))
+    return {'ok': ok, 'msg': msg}
+
+
+def static_verdict(ctx, g, found):
+    """after the static half ran (the oracle there is the search for a failing input)"""
+    bad = ctx.extra.get('static_gen_bad')
+    if not g['ok']:
+        ctx.note('source_tie_static', {'translator_ok': False, 'message': g['msg'][-400:]})
+        if not found:
+            ctx.broken('translator static2coq.py refuses dawgie/fe/__init__.py', g['msg'],
+                       {'source': 'translator'})
+    elif bad and not found:
+        ctx.broken('translator validation: generated _static disagrees with python', repr(bad),
+                   {'source': 'translator-validation', 'tree': bad['tree'], 'request': bad['request'],
+                    'expected': repr(bad['generated']), 'observed': repr(bad['python'])})
